@@ -14,7 +14,7 @@ MCNext ==
   \/ /\ UNCHANGED crashes
      /\ \/ \E k \in DML \cup {"create"} : Begin(k)
         \/ SharedLock \/ SharedUnlock \/ Aborted \/ ExclusiveLock \/ ExclusiveUnlock \/ Recovered
-        \/ \E p \in Pages, n \in Lsns : Stamp(p, n) \/ WritePage(p, n)
+        \/ \E p \in Pages, n \in Lsns : Stamp(p, n) \/ WritePage(p, n) \/ WritePageFails(p, n)
         \/ \E n \in Lsns : LogAppend(n)
         \/ \E ok \in BOOLEAN : Result(ok)
         \/ \E n \in 1..(MaxLsn + 1), x \in 1..(Cardinality(Pages) + 1) : WriteHeader(n, x)
